@@ -104,19 +104,31 @@ def exec_for(ex, s: ast.For, st: State) -> list[State]:
         raise Unsupported('for/else')
     ordinal = ex.loop_ids[id(s)]
     named_heap(st)
-    it = ex.ev(s.iter, st)
-    if it.kind in ('ref', 'val'):
-        it = st.name_sv(it)
-    src = _iter_source(ex, it, st)
+    if isinstance(s.iter, (ast.List, ast.Tuple)) and not any(isinstance(x, ast.Starred) for x in s.iter.elts):
+        # a display of statically known length: unrolled exactly (the temporary list itself is unobservable)
+        src = ('static', [ex.ev(x, st) for x in s.iter.elts])
+    else:
+        it = ex.ev(s.iter, st)
+        if it.kind in ('ref', 'val'):
+            it = st.name_sv(it)
+        src = _iter_source(ex, it, st)
     if src[0] == 'static':
-        states = [st]
+        from .symexec import LoopFrame
+        states, broken = [st], []
         for el in src[1]:
             nxt = []
             for x in states:
-                ex.bind_target(s.target, el, x)
-                nxt.extend(ex.exec_block(s.body, x))
+                fr = LoopFrame()
+                ex.loop_frames.append(fr)
+                try:
+                    ex.bind_target(s.target, el, x)
+                    outs = ex.exec_block(s.body, x)
+                finally:
+                    ex.loop_frames.pop()
+                nxt.extend(outs + fr.continues)
+                broken.extend(fr.breaks)
             states = nxt
-        return states
+        return states + broken
     spec = ex.contract.loops.get(ordinal)
     if spec is None:
         raise Unsupported('loop %d has no invariant in the contract' % ordinal)
@@ -300,7 +312,10 @@ def exec_while(ex, s: ast.While, st: State) -> list[State]:
             v1 = spec.variant(lctx(o))
             ex.oblige('%s.term' % tag, o, z3.And(v0 >= 0, v1 < v0), 'term', 'loop variant decreases and is bounded below')
     if spec.variant is None and not ex.probing:
-        ex.oblige('%s.term' % tag, st, z3.BoolVal(False), 'term', 'while loop without a variant')
+        if getattr(spec, 'term_unverified', False):
+            pass        # listed as an unchecked assumption in the evidence (prover.run_property)
+        else:
+            ex.oblige('%s.term' % tag, st, z3.BoolVal(False), 'term', 'while loop without a variant')
     exit_st = head.fork()
     ce = ex.truthy(ex.ev(s.test, exit_st), exit_st)
     exit_st.assume(z3.Not(ce))
